@@ -19,10 +19,14 @@ def Cur.ints (c : Cur) (k : Nat) : Array Nat × Cur :=
 def Cur.flts (c : Cur) (k : Nat) : Array Float × Cur :=
   (List.range k).foldl (fun (acc : Array Float × Cur) _ => let (v, c') := acc.2.flt; (acc.1.push v, c')) (#[], c)
 
-def ratVec (a : Array Float) : Nat → Rat := let r := a.map floatToRat; fun i => r.getD i 0
-def ratMat (a : Array Float) (ncols : Nat) : Nat → Nat → Rat := let r := a.map floatToRat; fun i j => r.getD (i * ncols + j) 0
-def optVec (a : Array Float) : Nat → Option Rat :=
-  let r := a.map (fun x => if x.isInf || x.isNaN then none else some (floatToRat x)); fun i => (r.getD i none)
+-- NB: the conversions are done once, *before* the accessor closures are built (a `let` inside a curried definition
+-- would be re-evaluated at every access)
+def vecOf (r : Array Rat) (i : Nat) : Rat := r.getD i 0
+def matOf (r : Array Rat) (ncols : Nat) (i j : Nat) : Rat := r.getD (i * ncols + j) 0
+def optOf (r : Array (Option Rat)) (i : Nat) : Option Rat := r.getD i none
+def toRats (a : Array Float) : Array Rat := a.map floatToRat
+def toOptRats (a : Array Float) : Array (Option Rat) :=
+  a.map (fun x => if x.isInf || x.isNaN then none else some (floatToRat x))
 
 def rq (num : Int) (den : Nat) : Rat := mkRat num den
 def absR (x : Rat) : Rat := if x < 0 then -x else x
@@ -70,16 +74,21 @@ def optRecord (toks : Array String) : String := Id.run do
     | some a => a.toCode | none => 6
   if status == 2 then return s!"O opt {modelAlg} 1"
   let alg := Alg.ofCode algCode
+  let Lr := toRats Lf; let br := toRats bf; let lor := toOptRats lof; let hir := toOptRats hif
+  let Cr := toRats Cf; let dr := toRats df
+  let x0r := toRats x0f; let xretr := toRats xretf; let envLor := toRats envLof; let envHir := toRats envHif
+  let xsr := toRats xsf; let multr := toRats multf; let zlor := toRats zlof; let zhir := toRats zhif
+  let logR : List (Array Rat) := logX.toList.map toRats
   let P : Problem Rat := {
       n := n, nEq := nEq, nIneq := nIneq, ptype := ptype, cR := floatToRat cRF,
-      L := ratMat Lf n, b := ratVec bf, lo := optVec lof, hi := optVec hif, C := ratMat Cf n, d := ratVec df }
+      L := matOf Lr n, b := vecOf br, lo := optOf lor, hi := optOf hir, C := matOf Cr n, d := vecOf dr }
   let tol := floatToRat tolF_; let ctol := floatToRat ctolF; let fret := floatToRat fretF
-  let x0 := ratVec x0f; let xret := ratVec xretf
+  let x0 := vecOf x0r; let xret := vecOf xretr
   let numdiff := alg != .cmaes && (numGrad || (numJac && nc > 0))
   let startInside := inBox n P.lo P.hi x0
   let accFacF : Float := if method == 1 then Float.pow accF (1.0 / 3.0) else Float.sqrt accF
   let accFac := floatToRat accFacF
-  let envLo := ratVec envLof; let envHi := ratVec envHif
+  let envLo := vecOf envLor; let envHi := vecOf envHir
   -- limits the evaluations are held to
   let relax : Rat := if alg == .interiorPoint then rq 10000001 1000000000000000 else 0
   let expand (i : Nat) : Rat :=
@@ -87,11 +96,11 @@ def optRecord (toks : Array String) : String := Id.run do
   let loE : Nat → Option Rat := fun i => (P.lo i).map (fun a => a - relax * maxR 1 (absR a) - expand i)
   let hiE : Nat → Option Rat := fun i => (P.hi i).map (fun a => a + relax * maxR 1 (absR a) + expand i)
   let evalPts : List (Nat → Rat) :=
-    (if nEval > 0 then [envLo, envHi] else []) ++ logX.toList.map ratVec
+    (if nEval > 0 then [envLo, envHi] else []) ++ logR.map vecOf
   let graderr : Rat := if numGrad then (if method == 1 then rq 1 10000000 else rq 1 10000) * (1 + absR fret) else 0
   let boundSq : Rat := match alg with
     | .lbfgs => let t := tol * maxR (rq 1 10) (absR fret) * rq 1001 1000 + graderr; (n : Rat) * t * t
-    | .lbfgsb => 2 * (rq 22 100000000 + 50 * (n : Rat) * (tol + graderr) * (tol + graderr)) * maxR 1 (absR (P.F (ratVec xsf)))
+    | .lbfgsb => 2 * (rq 22 100000000 + 50 * (n : Rat) * (tol + graderr) * (tol + graderr)) * maxR 1 (absR (P.F (vecOf xsr)))
     | .interiorPoint => let t := 200 * (tol + ctol + graderr) + rq 1 10000; t * t
     | .cmaes => 2500 * tol
     | _ => 1
@@ -103,7 +112,7 @@ def optRecord (toks : Array String) : String := Id.run do
       loE := loE, hiE := hiE,
       checkEvals := !(alg == .interiorPoint && !startInside),
       boundSq := boundSq }
-  let cert : Option (Cert Rat) := if haveStar then some { xs := ratVec xsf, mult := ratVec multf, zlo := ratVec zlof, zhi := ratVec zhif } else none
+  let cert : Option (Cert Rat) := if haveStar then some { xs := vecOf xsr, mult := vecOf multr, zlo := vecOf zlor, zhi := vecOf zhir } else none
   let mut fails : List String := []
   if algCode != modelAlg then fails := fails ++ ["select"]
   if status == 0 then
